@@ -546,6 +546,30 @@ def k9_store_then_meet(core, rep):
             rep.ob('K9', f'{fi.name}/store-then-meet', ok,
                    f'in {fi.name}() the {what} store `{unparse(n.ast)}` is not immediately followed by self.{tracker}.meet({keytxt}): waiters would never be released', _w(fi, n.ast),
                    sample={'store': unparse(n.ast), 'next': [unparse(x.ast, 60) for x in normal if x.ast is not None]})
+        # ... and conversely: the tracker is told "met" only on paths that did store (a handler that falls through to a common
+        # meet() releases the waiters of a line that has no value: they are evaluated again and register the same wait again)
+        meets = [n for n in g.nodes if n.kind == 'stmt' and n.ast is not None and any(call_name(c) == 'meet' and self_attr(c.func.value) == tracker for c in calls_in(n.ast))]
+        sid = {n.id for n in stores}
+        def _reach_unstored(target):
+            # an exception edge out of the storing statement means the store did not happen
+            seen_, todo_ = set(), [g.entry]
+            while todo_:
+                x = todo_.pop()
+                if x.id in seen_:
+                    continue
+                seen_.add(x.id)
+                if x is target:
+                    return True
+                for y in x.succ:
+                    if x.id in sid and y.kind != 'except':
+                        continue
+                    todo_.append(y)
+            return False
+        for m_ in meets:
+            early = _reach_unstored(m_)
+            rep.ob('K9', f'{fi.name}/meet-only-after-the-store', not early,
+                   f'{fi.name}() can reach self.{tracker}.meet(...) without having stored the {what} (for instance from an exception handler that falls through): the lines waiting for it are '
+                   'released although it has no value - released before their dependency is met', _w(fi, m_.ast))
     # meet is called nowhere else with another key discipline
     for rel, c in core.all_nodes(ast.Call):
         if call_name(c) == 'meet' and rel == s.rel:
@@ -876,9 +900,14 @@ def k11_input_gate(core, rep):
     if fi is None or 'value' not in fi.methods:
         raise AnalysisError('FloatInput.value not found (anchor vanished)')
     m = fi.methods['value']
-    finfo = core.func(fi.rel, 'FloatInput', 'value')
-    g = finfo.cfg
-    for r in [n for n in g.nodes if n.kind == 'stmt' and isinstance(n.ast, ast.Return)]:
+    # every input class that converts with float() itself (FloatInput, and any subclass that overrides value() instead of
+    # delegating to it) tests the result for finiteness
+    floaty = ['FloatInput'] + [cn for cn, c2 in core.classes.classes.items() if cn != 'FloatInput' and c2.rel == fi.rel and 'value' in c2.methods
+                               and any(isinstance(c.func, ast.Name) and c.func.id == 'float' for c in calls_in(c2.methods['value']))]
+    for cname_ in floaty:
+      finfo = core.func(fi.rel, cname_, 'value')
+      g = finfo.cfg
+      for r in [n for n in g.nodes if n.kind == 'stmt' and isinstance(n.ast, ast.Return)]:
         v = r.ast.value
         if isinstance(v, ast.Constant):
             continue
@@ -887,6 +916,11 @@ def k11_input_gate(core, rep):
             continue
         facts = g.branch_facts(r)
         fin = any(('isfinite' in txt and pol is True) or (('isnan' in txt or 'isinf' in txt) and pol is False) for txt, pol in facts)
+        if cname_ != 'FloatInput':
+            rep.ob('K11d', f'{cname_}/float-input-finite', fin,
+                   f'{cname_}.value() converts with float() itself and returns the result without a finiteness test (it overrides FloatInput.value instead of delegating to it): "nan", "inf" '
+                   'and "1e999" validate and reach the lines', f'{fi.rel}:{r.ast.lineno}')
+            continue
         rep.ob('K11d', 'float-input-finite', fin,
                'FloatInput.value() returns float(text) without a finiteness test: "nan", "inf" and "1e999" validate and reach the lines (comparisons with nan are silently false)', f'{fi.rel}:{r.ast.lineno}')
 
@@ -2111,8 +2145,10 @@ def k11j_validator_and_converter_agree(core, rep):
             prm = m.args.args[1].arg if len(m.args.args) > 1 else None
             normalised = any(isinstance(x, ast.Assign) and any(isinstance(t_, ast.Name) and t_.id == prm for t_ in x.targets)
                              and (('super().value(' in unparse(x.value)) or ('.strip()' in unparse(x.value))) for x in ast.walk(m))
-            subs = [x for x in ast.walk(m) if isinstance(x, ast.Subscript) and isinstance(x.ctx, ast.Load) and self_attr(x.value) == 'enum']
-            keys[mname] = (normalised, [unparse(x.slice) for x in subs], prm)
+            subs = [x for x in ast.walk(m) if isinstance(x, ast.Subscript) and isinstance(x.ctx, ast.Load)
+                    and (self_attr(x.value) == 'enum' or (isinstance(x.value, ast.Attribute) and x.value.attr == '__members__' and self_attr(x.value.value) == 'enum'))]
+            subs += [c for c in calls_in(m) if isinstance(c.func, ast.Attribute) and c.func.attr in ('get', '__getitem__') and 'self.enum' in unparse(c.func.value)]
+            keys[mname] = (normalised, [unparse(x.slice) if isinstance(x, ast.Subscript) else unparse(x.args[0]) if x.args else '' for x in subs], prm)
         if not keys['valid'][1] and not keys['value'][1]:
             continue
         n += 1
